@@ -478,6 +478,55 @@ async def big_file_case(ctx, workdir: str, size_bytes: int) -> None:
         ctx.violation("roundtrip-differs", f"{size_bytes}-byte registry: shape after load differs", case)
 
 
+async def path_spelling_case(ctx, nodes: dict, workdir: str, spelling: str) -> None:
+    """The persistence path is the application's string: relative, with '~', '$VAR', '..', blanks, non-ASCII.  Whatever
+    save makes of it, load - also from a fresh Persistence object given the same string - must read the same file."""
+    from aiomysensors.persistence import Persistence
+
+    case = {"origin": {"kind": "path-spelling", "spelling": spelling}, "registry": snap(nodes)}
+    base = os.path.join(workdir, "paths")
+    shutil.rmtree(base, ignore_errors=True)
+    os.makedirs(os.path.join(base, "home"))
+    old_cwd, old_home = os.getcwd(), os.environ.get("HOME")
+    os.chdir(base)
+    os.environ["HOME"] = os.path.join(base, "home")
+    try:
+        directory = os.path.dirname(spelling)
+        if directory:
+            os.makedirs(directory, exist_ok=True)  # the directory the literal string names, relative to the cwd
+        before = typed(snap(nodes))
+        ctx.case(("path", spelling, json.dumps(snap(nodes), sort_keys=True, default=str)), sample=None)
+        try:
+            await Persistence(nodes, spelling).save()
+        except Exception as exc:  # noqa: BLE001
+            ctx.obs("path-spelling:save-refused:" + type(exc).__name__)
+            return
+        ctx.clause("path-spelling-roundtrip")
+        loaded: dict = {}
+        try:
+            await Persistence(loaded, spelling).load()
+        except Exception as exc:  # noqa: BLE001
+            ctx.violation("saved-file-rejected-by-load", f"path {spelling!r}: load after save raised {type(exc).__name__}: "
+                                                         f"{exc!s:.100}", case)
+            return
+        diff = first_difference(before, typed(snap(loaded)))
+        if diff:
+            ctx.violation("roundtrip-differs", f"path {spelling!r}: a fresh Persistence object given the same path string does "
+                                               f"not load what save wrote (differs at {diff})", case)
+    finally:
+        os.chdir(old_cwd)
+        if old_home is None:
+            os.environ.pop("HOME", None)
+        else:
+            os.environ["HOME"] = old_home
+        shutil.rmtree(base, ignore_errors=True)
+
+
+PATH_SPELLINGS = ["nodes.json", "./nodes.json", "sub/nodes.json", "sub/../nodes.json", "~/nodes.json", "~/mysensors/nodes.json",
+                  "~nodes.json", "$HOME/nodes.json", "${HOME}/nodes.json", "%TEMP%/nodes.json", "with space/no des.json",
+                  "rég/nœds.json", "nodes.json ", ".hidden", "a/b/c/d/e/nodes.json", "nodes", "-nodes.json", "file:nodes.json"]
+
+
 def constructed(rng):
     from aiomysensors.model.node import Child, Node
 
@@ -554,6 +603,12 @@ def run(ctx) -> None:
                 queued_saves_case(ctx, constructed(rng), workdir, i, n_saves, cancel)
             for i in range(ctx.pick(80, 4000) // ctx.shard_count + 2):
                 arun(loosely_typed_case(ctx, loosely_typed_registry(rng), workdir, i))
+            for i, spelling in enumerate(PATH_SPELLINGS):
+                if ctx.mine(i):
+                    nodes = constructed(rng)
+                    while not nodes:
+                        nodes = constructed(rng)
+                    arun(path_spelling_case(ctx, nodes, workdir, spelling))
             # scale: whole networks (up to 256 nodes x 40 children x 20 values: files of several MB)
             # every collection filled to its maximum: all 256 node ids, all 255 child ids of a node, all value types
             sizes = [(256, 3, 2), (40, 40, 5), (3, 255, 2), (2, 255, 57)] + ([(256, 40, 20), (100, 100, 10), (256, 255, 3)]
